@@ -22,6 +22,7 @@ package model
 //@   ensures [C08 running_becomes_failed] old(st.Status) == scheduler.StatusRunning ==> st.Status == scheduler.StatusError
 //@   ensures [C08 other_states_untouched] old(st.Status) != scheduler.StatusRunning ==> (st.Status == old(st.Status) && st.StatusText == old(st.StatusText))
 //@   ensures [C08 never_left_running] st.Status != scheduler.StatusRunning
+//@   ensures [C08 corrected_status_is_shown_as_failed] old(st.Status) == scheduler.StatusRunning ==> st.StatusText == "failed"
 
 //@ fn errText(err) (r)
 //@   props C08
@@ -34,6 +35,7 @@ package model
 //@   modifies heap(alloc)
 //@   ensures [C08 node_record_is_faithful] n != nil && !wasAllocated(n) && n.Status == node.State.Status && n.RetryCount == node.State.RetryCount &&
 //@        n.DoneCount == node.State.DoneCount && n.Log == node.State.Log && n.Step == node.Step
+//@   ensures [C08 node_record_shows_the_status_under_its_own_name] n.StatusText == step_status_text(node.State.Status)
 
 //@ fn FromNodes(nodes) (ret)
 //@   props C08
@@ -53,6 +55,7 @@ package model
 //@   nullable startTime endTime
 //@   modifies heap(alloc)
 //@   ensures st != nil && !wasAllocated(st) && st.Status == status && st.Name == workflow.Name
+//@   ensures [C08 run_record_shows_the_status_under_its_own_name] st.StatusText == run_status_text(status)
 //@   ensures [C08 node_table_is_the_node_state] len(nodes) != 0 ==> (len(st.Nodes) == len(nodes) &&
 //@        (forall i int :: 0 <= i && i < len(nodes) ==> (st.Nodes[i] != nil && st.Nodes[i].Status == nodes[i].State.Status &&
 //@            st.Nodes[i].RetryCount == nodes[i].State.RetryCount && st.Nodes[i].DoneCount == nodes[i].State.DoneCount && st.Nodes[i].Log == nodes[i].State.Log)))
